@@ -128,6 +128,41 @@ func (s *seqRunner) apply(op string) OpResult {
 		}
 	}
 	_ = preStale
+	// C12: which calculator hook a write must consult is unambiguous: a write to an absent (or expired) key is a
+	// creation, a write to a present key an update
+	if s.cfg.Expiry != "" && hasKey && res.Panic == "" {
+		f := strings.Fields(stripOpts(op))
+		_, present := m.get(k)
+		writes := false
+		switch f[0] {
+		case "set", "cw":
+			writes = true
+		case "sia", "cia":
+			writes = !present
+		case "cipw":
+			writes = present
+		}
+		if writes {
+			want := map[string]string{"creating": "create", "writing": "write", "accessing": "access", "custom": "create"}[s.cfg.Expiry]
+			if present {
+				want = map[string]string{"creating": "", "writing": "write", "accessing": "access", "custom": "update"}[s.cfg.Expiry]
+			}
+			got := ""
+			for _, h := range hooks {
+				if h.Key == k && (h.Hook == "create" || h.Hook == "update" || h.Hook == "write" || h.Hook == "access") {
+					got = h.Hook
+				}
+			}
+			if got != want {
+				what := "an update of a present entry"
+				if !present {
+					what = "a creation (the key was absent or expired)"
+				}
+				s.fail("hook-mismatch", name, "op %q is %s: expected the %q expiry hook to be consulted, observed %q", op, what, want, got)
+			}
+			s.counters["hook-checks"]++
+		}
+	}
 	preTotal := m.totalWeight()
 	m.added = 0
 	ex := m.Step(stripOpts(op), res, hooks, loads, s.deferred)
@@ -462,6 +497,9 @@ func (s *seqRunner) apply(op string) OpResult {
 		if _, ok := s.writtenAt[e.val]; !ok {
 			s.writtenAt[e.val] = m.now
 		}
+	}
+	if st := r.C.VerifStatus(); st.WithMaintenance && st.ReadBufferLen >= 4 {
+		s.counters["read-buffer-saturated"]++
 	}
 	// 7. size bound after every op with a same-goroutine executor (C04)
 	if (s.cfg.MaxSize > 0 || s.cfg.MaxWeight > 0) && !s.deferred {
